@@ -216,6 +216,30 @@ is context free except for the Final_Sigma condition of SpecialCasing.txt (U+03A
 
 def upperCase (up : Nat → Str) (s : Str) : Str := s.flatMap up
 
+/-- Final_Sigma (Unicode §3.13 Table 3-17): "C is preceded by a sequence consisting of a cased letter
+and then zero or more case-ignorable characters, and C is not followed by a sequence consisting of
+zero or more case-ignorable characters and then a cased letter" — in the reading shared by ICU and
+CPython: going outwards from C the case-ignorable characters are skipped first, then the next
+character is tested for Cased.  `revBefore` = the characters before C, nearest first. -/
+def finalSigma (cased ign : Nat → Bool) (revBefore after : Str) : Bool :=
+  (match revBefore.dropWhile ign with
+    | c :: _ => cased c
+    | [] => false) &&
+  !(match after.dropWhile ign with
+    | c :: _ => cased c
+    | [] => false)
+
+/-- lower-casing, position by position: U+03A3 becomes U+03C2 in Final_Sigma context and U+03C3
+otherwise; every other character is replaced by its full lower-case mapping `lo c`. -/
+def lowerCase (lo : Nat → Str) (cased ign : Nat → Bool) (s : Str) : Str :=
+  (List.range s.length).flatMap fun i =>
+    match s[i]? with
+    | none => []
+    | some c =>
+      if c = 0x3A3 then
+        [if finalSigma cased ign (s.take i).reverse (s.drop (i + 1)) then 0x3C2 else 0x3C3]
+      else lo c
+
 /-! ### F&O §6.1 `fn:encode-for-uri`, §6.2 `fn:iri-to-uri`, §6.3 `fn:escape-html-uri`
 Each character outside the function's allowed set "is replaced by its percent-encoded form: the
 character is converted to UTF-8 octets and each octet is written `%HH`" with upper-case hexadecimal
